@@ -448,7 +448,9 @@ class Ctx:
     def _solver(self):
         if self.solver is None:
             self.solver = z3.Solver()
-            self.solver.set("timeout", self.z3_timeout_ms)
+            # the resource limit is the (deterministic) budget; the wall-clock limit is only a backstop ten times wider, so that a
+            # verdict does not flip when the 16 cores are busy
+            self.solver.set("timeout", 10 * self.z3_timeout_ms)
             self.solver.set("rlimit", self.z3_rlimit)       # deterministic budget: nlsat does not always honour the wall-clock timeout
             self.zmap = smt.Z3Map()
             self.pmap = smt.PolyMap()
@@ -502,7 +504,7 @@ class Ctx:
         if res == z3.unknown:
             # second opinion: fresh non-incremental nlsat solver with a longer budget
             s2 = z3.SolverFor("QF_NRA")
-            s2.set("timeout", 4 * self.z3_timeout_ms)
+            s2.set("timeout", 40 * self.z3_timeout_ms)
             s2.set("rlimit", 4 * self.z3_rlimit)
             for a in sol.assertions():
                 s2.add(a)
